@@ -3,7 +3,10 @@ Translator plugin for C20: the long option names of the shell (`const OPTIONS` i
 yash-env/src/option.rs), in source order -> lean/YashModel/Generated/OptionNames.lean.
 `parse_long` / `canonicalize` look names up in this table; the Lean model (Args/OptionNames.lean) does the same.
 Fails loudly if the table is missing, empty, not sorted (the code binary-searches it) or has a name that is not
-lower-case ASCII alphanumeric.
+lower-case ASCII alphanumeric.  Also the finite tables the bespoke parsers ask yash_env::option for: `parse_short`
+(letter -> option, state), `is_modifiable`, `portable_short_name`, `portable_long_name` (options identified by their
+`long_name`), read from the `match` arms (alternatives `A | B`, `Option::A` / `State::On` paths, an exhaustive match or
+a `_` arm, `!matches!(self, …)` or a `match` for is_modifiable); any other shape is an error.
 """
 import re
 
@@ -24,7 +27,198 @@ def extract(h):
     out = ("/-- the long option names (`const OPTIONS` of `impl FromStr for Option`), in source (= sorted) order: "
            + " ".join(only) + " -/\n"
            f"def optionNames : List (List Char) := [\n{rows}]\n")
+    out += "\n" + option_tables(h, src, dict((v, n) for n, v in names))
     h.write("OptionNames", out)
+
+
+def strip_comments(text):
+    return re.sub(r"//[^\n]*", "", text)
+
+
+def fn_body(h, src, name):
+    """body of `fn name(...) -> ... { ... }` (the first definition outside doc comments)"""
+    m = re.search(r"(?m)^\s*pub\s+(?:const\s+)?fn\s+" + name + r"\s*\(", src)
+    if not m:
+        h.fail(f"optnames: fn {name} not found in option.rs")
+    # skip the parameter list and the return type up to the opening brace of the body
+    i = src.index("{", src.index(")", m.end()))
+    depth = 0
+    for j in range(i, len(src)):
+        if src[j] == "{":
+            depth += 1
+        elif src[j] == "}":
+            depth -= 1
+            if depth == 0:
+                return strip_comments(src[i + 1:j])
+    h.fail(f"optnames: fn {name}: unbalanced body")
+
+
+def match_arms(h, body, what):
+    """arms `pat => value,` of the single `match … { … }` of a function body (patterns may be alternatives)"""
+    m = re.search(r"match\s+\w+\s*\{", body)
+    if not m:
+        h.fail(f"optnames: {what}: no match expression")
+    inner = body[m.end():body.rindex("}")]
+    # split at the commas outside parentheses / literals
+    parts, depth, cur, i = [], 0, "", 0
+    while i < len(inner):
+        c = inner[i]
+        if c == '"':
+            j = i + 1
+            while inner[j] != '"':
+                j += 2 if inner[j] == "\\" else 1
+            cur += inner[i:j + 1]
+            i = j + 1
+            continue
+        if c == "'":
+            j = inner.index("'", i + 2 if inner[i + 1] == "\\" else i + 1)
+            j = j if j > i + 1 else inner.index("'", i + 2)
+            cur += inner[i:j + 1]
+            i = j + 1
+            continue
+        if c in "([{":
+            depth += 1
+        elif c in ")]}":
+            depth -= 1
+        if c == "," and depth == 0:
+            parts.append(cur)
+            cur = ""
+        else:
+            cur += c
+        i += 1
+    parts.append(cur)
+    arms = []
+    for arm in parts:
+        if not arm.strip():
+            continue
+        if "=>" not in arm:
+            h.fail(f"optnames: {what}: arm not understood: {arm.strip()[:60]!r}")
+        pat, val = arm.split("=>", 1)
+        arms.append(([x.strip() for x in pat.split("|")], val.strip()))
+    return arms
+
+
+def state_of(h, txt, what):
+    t = txt.strip().split("::")[-1]
+    if t not in ("On", "Off"):
+        h.fail(f"optnames: {what}: state {txt!r} not understood")
+    return t == "On"
+
+
+def option_tables(h, src, variant_name):
+    """`parse_short`, `is_modifiable`, `portable_short_name`, `portable_long_name`, `long_name`: the finite tables the
+    bespoke parsers (set, the command line) ask yash_env::option for.  Options are identified by their long name."""
+    variants = re.findall(r"(?m)^\s{4}(\w+),\s*$", strip_comments(h.item_body(src, r"pub\s+enum\s+Option\b", "option.rs enum Option")))
+    if sorted(variants) != sorted(variant_name):
+        h.fail(f"optnames: enum Option variants {sorted(variants)} differ from the variants named in const OPTIONS")
+
+    # long_name: Variant => "name"
+    longname = {}
+    for pats, val in match_arms(h, fn_body(h, src, "long_name"), "long_name"):
+        m = re.fullmatch(r'"([a-z0-9]+)"', val)
+        if not m or len(pats) != 1 or pats[0] not in variant_name:
+            h.fail(f"optnames: long_name arm {pats} => {val!r} not understood")
+        longname[pats[0]] = m.group(1)
+    if longname != variant_name:
+        h.fail("optnames: long_name() disagrees with const OPTIONS")
+
+    def opt(v, what):
+        v = v.split("::")[-1]
+        if v not in longname:
+            h.fail(f"optnames: {what}: unknown option variant {v!r}")
+        return longname[v]
+
+    # parse_short: 'c' => Some((Variant, On)), _ => None
+    shorts = []
+    seen_default = False
+    for pats, val in match_arms(h, fn_body(h, src, "parse_short"), "parse_short"):
+        if pats == ["_"]:
+            if val != "None":
+                h.fail(f"optnames: parse_short default arm {val!r} not understood")
+            seen_default = True
+            continue
+        m = re.fullmatch(r"Some\(\s*\(\s*([\w:]+)\s*,\s*([\w:]+)\s*\)\s*\)", val)
+        if not m:
+            h.fail(f"optnames: parse_short arm {pats} => {val!r} not understood")
+        for pat in pats:
+            cm = re.fullmatch(r"'(\\?.[^']*)'", pat)
+            if not cm:
+                h.fail(f"optnames: parse_short pattern {pat!r} not understood")
+            shorts.append((h.rust_char(cm.group(1)), opt(m.group(1), "parse_short"), state_of(h, m.group(2), "parse_short")))
+    if not seen_default or len(shorts) < 5:
+        h.fail("optnames: parse_short: no `_ => None` arm or fewer than 5 letters")
+    if len(set(c for c, _, _ in shorts)) != len(shorts):
+        h.fail("optnames: parse_short: a letter occurs twice")
+
+    # is_modifiable: `!matches!(self, A | B | C)` or `match self { A | B | C => false, _ => true }`
+    body = fn_body(h, src, "is_modifiable")
+    m = re.fullmatch(r"\s*!\s*matches!\s*\(\s*self\s*,\s*([\w:|\s]+)\)\s*", body)
+    if m:
+        unmod = [opt(v.strip(), "is_modifiable") for v in m.group(1).split("|")]
+    else:
+        unmod, default = [], None
+        for pats, val in match_arms(h, body, "is_modifiable"):
+            if val not in ("true", "false"):
+                h.fail(f"optnames: is_modifiable arm value {val!r} not understood")
+            if pats == ["_"]:
+                default = val
+            elif val == "false":
+                unmod += [opt(v, "is_modifiable") for v in pats]
+        listed_true = [opt(v, "is_modifiable") for pats, val in match_arms(h, body, "is_modifiable") if val == "true" and pats != ["_"] for v in pats]
+        if default == "false":
+            unmod = [n for n in longname.values() if n not in listed_true]
+        elif default is None and sorted(unmod + listed_true) != sorted(longname.values()):
+            h.fail("optnames: is_modifiable: match is neither exhaustive nor has a default arm")
+
+    # portable_short_name / portable_long_name: Variant => Some((x, State)), A | B => None
+    def portable(fn, value_re, conv):
+        res, listed = {}, set()
+        for pats, val in match_arms(h, fn_body(h, src, fn), fn):
+            if pats == ["_"]:
+                if val != "None":
+                    h.fail(f"optnames: {fn}: default arm {val!r} not understood")
+                continue
+            for v in pats:
+                listed.add(opt(v, fn))
+            if val == "None":
+                continue
+            m = re.fullmatch(r"Some\(\s*\(\s*" + value_re + r"\s*,\s*([\w:]+)\s*\)\s*\)", val)
+            if not m:
+                h.fail(f"optnames: {fn} arm {pats} => {val!r} not understood")
+            for v in pats:
+                res[opt(v, fn)] = (conv(m.group(1)), state_of(h, m.group(2), fn))
+        return res
+
+    pshort = portable("portable_short_name", r"'(\\?.[^']*)'", h.rust_char)
+    plong = portable("portable_long_name", r'"([^"\\]*)"', lambda x: x)
+
+    # the arms of a `match` on distinct letters / variants may be written in any order: emit sorted
+    shorts.sort()
+    unmod = sorted(set(unmod))
+    pshort = dict(sorted(pshort.items()))
+    plong = dict(sorted(plong.items()))
+
+    def lstr(t):
+        return "[" + ", ".join(h.lean_char(c) for c in t) + "]"
+
+    def lbool(b):
+        return "true" if b else "false"
+
+    out = ("/-- `parse_short`: (letter, option (by long name), state the letter renders): "
+           + " ".join(f"{c}={n}{'' if st else '(off)'}" for c, n, st in shorts) + " -/\n"
+           "def shortNames : List (Char × List Char × Bool) := [\n"
+           + ",\n".join(f"  ({h.lean_char(c)}, {lstr(n)}, {lbool(st)})" for c, n, st in shorts) + "]\n\n")
+    out += ("/-- the options `is_modifiable` refuses: " + " ".join(unmod) + " -/\n"
+            "def unmodifiable : List (List Char) := [\n" + ",\n".join("  " + lstr(n) for n in unmod) + "]\n\n")
+    out += ("/-- `portable_short_name`: option, letter, state: "
+            + " ".join(f"{n}={c}" for n, (c, _) in pshort.items()) + " -/\n"
+            "def portableShort : List (List Char × Char × Bool) := [\n"
+            + ",\n".join(f"  ({lstr(n)}, {h.lean_char(c)}, {lbool(st)})" for n, (c, st) in pshort.items()) + "]\n\n")
+    out += ("/-- `portable_long_name`: option, POSIX name, state the name renders: "
+            + " ".join(f"{n}={c}" for n, (c, _) in plong.items()) + " -/\n"
+            "def portableLong : List (List Char × List Char × Bool) := [\n"
+            + ",\n".join(f"  ({lstr(n)}, {lstr(c)}, {lbool(st)})" for n, (c, st) in plong.items()) + "]\n")
+    return out
 
 
 TABLES = {"OptionNames": extract}
